@@ -107,18 +107,37 @@ func gsubRules(info *gtab.Info, name func(glyph.ID) string) ([]string, bool) {
 		return nil, true
 	}
 	for _, l := range info.LookupList {
+		// within one lookup the first subtable that covers a glyph decides;
+		// rules of later subtables for the same glyph are shadowed
+		decided := map[glyph.ID]bool{}
 		for _, st := range l.Subtables {
 			switch s := st.(type) {
 			case *gtab.Gsub1_1:
+				var here []glyph.ID
 				for g := range s.Cov {
+					if decided[g] {
+						continue
+					}
+					here = append(here, g)
 					rules = append(rules, fmt.Sprintf("%s -> %s", name(g), name(g+s.Delta)))
 				}
+				for _, g := range here {
+					decided[g] = true
+				}
 			case *gtab.Gsub1_2:
+				var here []glyph.ID
 				for g, idx := range s.Cov {
 					if idx >= len(s.SubstituteGlyphIDs) {
 						return nil, false
 					}
+					if decided[g] {
+						continue
+					}
+					here = append(here, g)
 					rules = append(rules, fmt.Sprintf("%s -> %s", name(g), name(s.SubstituteGlyphIDs[idx])))
+				}
+				for _, g := range here {
+					decided[g] = true
 				}
 			case *gtab.Gsub4_1:
 				for g, idx := range s.Cov {
